@@ -21,6 +21,27 @@ P = {
  "C05": ("E2", SEQ_TECH,
          "PPTT, RHCT, RIMT, VIOT: every add operation of every node kind, with reference-taking operations instantiated with every handle selector (first, middle, latest) over earlier handles; in every intermediate image each returned handle (PPTT/RHCT: read through Debug) and each reference field must equal the offset at which the independent body walk finds the node it names.",
          SEQ_NOTE + " RIMT/VIOT handles are opaque (no Debug): their value is observed only where a later operation uses them.", "DESIGN.md section 4 C05"),
+ "C06": ("E4", "bounded-exhaustive enumeration of AML term trees built with the real constructors + independent recursive-descent parse",
+         "All programs of four families over every exported AML constructor (roots x fillers^slots, every (parent, slot, child) pair, every nesting triple of the 14 length-prefixed kinds, every body size 0..4200 and around 2^20) are built and serialised by the crate and parsed back by a harness-side ACPI 6.5 ch.20 decoder that knows only method arities; the stream must be consumed exactly, every PkgLength object must end where its last child ends, and the parsed tree must equal the tree the specification prescribes for the program.",
+         "All trees of the stated families, not all trees. Children are passed to parents pre-serialised by the crate's own serialiser. The parser accepts a superset grammar (any object where a term is expected).", "DESIGN.md section 4 C06"),
+ "C07": ("E3", "whole-domain sweep of all 2^28 lengths in both forms on the real encoder + call-site binding",
+         "Every length 0..2^28-1 in the self-inclusive and the exclusive form is encoded by the real encoder (cfg hook) and decoded by the specification's rule (value, lead-byte format, shortest width that can include itself; the 4 unrepresentable inclusive lengths must be refused). The exclusive form is swept again through the public Field API and must agree with the hook byte for byte; each of the 15 length-prefixed object kinds is bound to the encoder with every body size 0..4200 and around 2^20.",
+         "Trusts that the one-line cfg hook is a pass-through (bound to the shipped entry points by the Field sweep and the call-site binding).", "DESIGN.md section 4 C07"),
+ "C08": ("E3", "whole-domain sweep: all 2^32 values through the integer encoders, structured u64 set",
+         "All 2^32 values of u32 (hence all u8 and u16) are emitted through every carrier type they fit (quick: wider carriers on a stated subset) and must equal the narrowest Zero/One/Byte/Word/DWord/QWord encoding; u64/usize over width boundaries +-2, single bits, byte fills, shifted bytes and seed values; buffer-size operands 0..70000 and package elements.",
+         "u64/usize beyond 2^32 are covered by a structured set, not exhaustively; 64-bit host.", "DESIGN.md section 4 C08"),
+ "C09": ("E3", "exhaustive enumeration of path shapes and per-position character sets on the real encoder",
+         "Segment counts 1..255 x rooted/relative, every legal character at every position of the first/middle/last segment of 1-, 2-, 3- and 255-segment paths, malformed segment lengths 0..3 and 5..8 at every position of 1..4-segment paths plus dot/root anomalies (all must be refused), and the 12 named-object constructors, each decoded by a harness-side NameString decoder.",
+         "Segment contents are varied one position at a time, not in all combinations.", "DESIGN.md section 4 C09"),
+ "C10": ("E4", "bounded-exhaustive enumeration of descriptor programs and templates + independent small/large-item walker",
+         "Every descriptor kind over per-field value alphabets (full products for two-field kinds, all min<=max pairs, all flag sets, 13 address spaces x 5 access sizes), every template of <=3 descriptors over 11 kinds and k identical descriptors for every k up to a 4200-byte payload: bytes must equal the ACPI 6.4 reference encoding, length fields must frame the payload, the Buffer size must equal the payload, and a walk by the descriptors' own lengths must tile it and end in 79 00.",
+         "Values range over the stated alphabets; min>max and unrepresentable sizes belong to C18.", "DESIGN.md section 4 C10"),
+ "C15": ("E4", "bounded-exhaustive enumeration of paired construction paths, byte equality",
+         "Scope::raw vs Scope::new for 6 path shapes x every body size 0..4200 and around 2^20 and every child list <=3; PackageBuilder vs Package for every element count 0..255, all lists <=3 and nested; &str vs String for every length 0..300; usize vs u64 over the structured integer set.",
+         "Equality of the two paths only; correctness of the bytes is C06/C07.", "DESIGN.md section 4 C15"),
+ "C16": ("E3", "whole-domain sweep of all 26^3*16^4 EISA ids (thorough) and positional enumeration of UUID strings on the real encoders",
+         "EISA: every identifier (thorough) or every position over its full set plus all letter triples x 256 digit patterns (quick) is emitted and decompressed by the specification's rule; UUID: every nibble position x 16 digits x 2 cases x 3 backgrounds, seed-derived strings, all position pairs (thorough), decoded through the ToUUID inverse; malformed strings (every wrong length, digit at a dash, bad character at each nibble) must be refused.",
+         "The UUID space is covered structurally, not exhaustively.", "DESIGN.md section 4 C16"),
  "C17": ("E3+E1", "complete enumeration of the accumulator's 256-state transition relation on the real code + stateright closure",
          "All 256 accumulator states x all 256 bytes x {add, sub, sink byte}, all (state, 2-byte slice) pairs for the slice and sink forms, and a stateright closure from the default accumulator that must reach exactly 256 states, each compared with a wide-integer reference. The state is one byte, so single steps from every state cover every history: this is a complete check, not a bound.",
          "Trusts that raw_value() exposes the whole state (the struct has a single u8 field) and that the host is 64-bit little-endian.",
